@@ -2,7 +2,7 @@
 
 Absence of out-of-bounds access in the parsers IN GENERAL is NOT decided (the parsers are safe partly by arithmetic no
 check states).  Decided -- necessary conditions only:
-  VALIDATOR    the inventory of load-time rejections (tables/validators.json, 263 passing-direction facts over 49 parser
+  VALIDATOR    the inventory of load-time rejections (tables/validators.json, 283 passing-direction facts over 53 parser
                functions, confirmed on the pinned tree): each must still be enforced with at least the tabled strength
   OPERANDCHECK per opcode, the operand validations fetch_opcode performs before emitting it (tables/opcode_checks.json);
                the rows feeding unchecked run-time sinks (class ids, user-attribute ids, slot references) are load-bearing
@@ -26,7 +26,7 @@ EXPLANATION = ('A frozen, hand-confirmed inventory of every load-time rejection 
                'the bytecode loader; a def-use rule that no failure result is dropped; the recursion guard of the decoder; constant '
                'coherence; and the ownership rules for the failed-load exits.  This decides that no tabled check was removed or weakened '
                'and that failures propagate -- it does NOT decide that the checks are sufficient for memory safety on arbitrary bytes.')
-FLOORS = {'VALIDATOR': 250, 'OPERANDCHECK': 60, 'ERRDISC': 110, 'NESTGUARD': 3, 'CONST': 4, 'OWNFIELD': 40, 'OWNLOCAL': 12, 'TABLETS': 8}
+FLOORS = {'VALIDATOR': 270, 'OPERANDCHECK': 60, 'ERRDISC': 110, 'NESTGUARD': 3, 'CONST': 4, 'OWNFIELD': 40, 'OWNLOCAL': 12, 'TABLETS': 8}
 
 STATUS_FUNCS = {
     '(anonymous namespace)::load_face', 'graphite2::Face::readGlyphs', 'graphite2::Face::readFeatures', 'graphite2::Face::readGraphite',
@@ -215,6 +215,8 @@ def const_(run, vm):
 def run(run):
     vm = R.get_vm(run)
     fx = vm.fx
+    from . import c13
+    c13.narrowread(run, fx)
     validators.check(run, fx, 'VALIDATOR')
     opchecks.check(run, vm, 'OPERANDCHECK')
     errdisc(run, fx)
